@@ -285,7 +285,7 @@ func init() {
 	vf.Register(&vf.Check{
 		ID: "C09", Title: "EML parsing is total",
 		Run: func(r *vf.Run) {
-			r.SetRule("(a) every byte string of length <= 6 (thorough 7) over {a : SP CR LF ; = \" -} as whole input; (b) structure-aware mutants of 8 valid seeds (plain 8bit/QP/base64, alternative, mixed+attachment, mixed>related>alternative, two hand-written): every slot (header name, value, parameter name/value, boundary line, blank line, continuation) × 22 mutations — all single and all pairs of slot mutations (thorough: triples around Content-Type/Disposition); (c) for every seed and single mutant a reader failing at every offset (seeds) / 8 offsets (mutants), a one-byte reader, and the file entry point; oracle: the call returns (no panic) within the watchdog; distinct by input bytes and mode")
+			r.SetRule("(a) every byte string of length <= 6 (thorough 7) over {a : SP CR LF ; = \" -} as whole input; (b) structure-aware mutants of 8 valid seeds (plain 8bit/QP/base64, alternative, mixed+attachment, mixed>related>alternative, two hand-written): every slot (header name, value, parameter name/value, boundary line, blank line, continuation) × 22 mutations — all single and all pairs of slot mutations (thorough: triples around Content-Type/Disposition); (c) for every seed and single mutant a reader failing at every offset (seeds) / 8 offsets (mutants), a one-byte reader, and the file entry point; (d) header-value grammars: every token string of length <= 4 (thorough 5) over an address alphabet {a @ b.example < > , : ; \" SP ( ) encoded-word} as From/To/Cc/Bcc/Reply-To/Content-ID value, over a media-type alphabet as Content-Type/-Transfer-Encoding/-Disposition value (top level and inside a multipart part), over a date alphabet as Date value; oracle: the call returns (no panic) within the watchdog; distinct by input bytes and mode")
 			r.Assume("termination is decided by a 30 s per-case watchdog (a bound, not a proof)")
 			dir := filepath.Join(os.Getenv("VERIF_WORK"), fmt.Sprintf("c09-%d", os.Getpid()))
 			_ = os.MkdirAll(dir, 0o755)
@@ -450,6 +450,91 @@ func init() {
 					r.Transition(vf.Hash("seed", fmt.Sprint(j.seed)), what, vf.Hash("mutant", fmt.Sprint(j.seed), fmt.Sprint(len(j.picks))))
 				}
 			})
+			// (d) header-value grammars: every token string up to length L as the value of every header the parser
+			// interprets, at the top level and inside a multipart part
+			{
+				addrTok := []string{"a", "@", "b.example", "<", ">", ",", ":", ";", "\"", " ", "(", ")", "=?utf-8?q?x?="}
+				ctTok := []string{"text", "/", "plain", "multipart", "mixed", ";", "=", "\"", " ", "boundary", "charset", "xyz", "*", "%", "filename", "attachment"}
+				dateTok := []string{"Mon", ",", " ", "02", "Jan", "2006", "15:04:05", ":", "+0000", "-", "(", ")", "MST"}
+				type hv struct {
+					hdr  string
+					toks []string
+					part bool
+				}
+				hvs := []hv{{"From", addrTok, false}, {"To", addrTok, false}, {"Cc", addrTok, false}, {"Bcc", addrTok, false}, {"Reply-To", addrTok, false},
+					{"Content-Type", ctTok, false}, {"Content-Transfer-Encoding", ctTok, false}, {"Content-Disposition", ctTok, false}, {"Date", dateTok, false},
+					{"Content-Type", ctTok, true}, {"Content-Transfer-Encoding", ctTok, true}, {"Content-Disposition", ctTok, true}, {"Content-ID", addrTok, true}}
+				L := 4
+				if r.Thorough {
+					L = 5
+				}
+				base := map[string]string{"From": "a@b.example", "To": "c@d.example", "Subject": "s", "Date": "Mon, 02 Jan 2006 15:04:05 -0700", "Content-Type": "text/plain; charset=utf-8"}
+				order := []string{"Date", "From", "To", "Cc", "Bcc", "Reply-To", "Subject", "MIME-Version", "Content-Type", "Content-Transfer-Encoding", "Content-Disposition"}
+				build := func(h hv, val string) []byte {
+					var b bytes.Buffer
+					if h.part {
+						b.WriteString("From: a@b.example\r\nTo: c@d.example\r\nSubject: s\r\nContent-Type: multipart/mixed; boundary=xyz\r\n\r\n--xyz\r\n")
+						pb := map[string]string{"Content-Type": "text/plain; charset=utf-8"}
+						pb[h.hdr] = val
+						for _, n := range []string{"Content-Type", "Content-Transfer-Encoding", "Content-Disposition", "Content-ID"} {
+							if v, ok := pb[n]; ok {
+								b.WriteString(n + ": " + v + "\r\n")
+							}
+						}
+						b.WriteString("\r\nbody\r\n--xyz\r\nContent-Type: application/octet-stream\r\nContent-Disposition: attachment; filename=a.bin\r\n\r\nraw\r\n--xyz--\r\n")
+						return b.Bytes()
+					}
+					hs := map[string]string{}
+					for k, v := range base {
+						hs[k] = v
+					}
+					hs[h.hdr] = val
+					for _, n := range order {
+						if v, ok := hs[n]; ok {
+							b.WriteString(n + ": " + v + "\r\n")
+						}
+					}
+					b.WriteString("\r\nbody text\r\n")
+					return b.Bytes()
+				}
+				nvals := 0
+				for hi, h := range hvs {
+					hi, h := hi, h
+					nt := len(h.toks)
+					total := 0
+					pw := 1
+					var offs []int
+					for l := 0; l <= L; l++ {
+						offs = append(offs, total)
+						total += pw
+						pw *= nt
+					}
+					nvals += total
+					chunk := 2048
+					r.Parallel((total+chunk-1)/chunk, "C09 header-value grammar", func(ci int) {
+						s := newSlot()
+						for idx := ci * chunk; idx < (ci+1)*chunk && idx < total; idx++ {
+							l := 0
+							for l+1 < len(offs) && offs[l+1] <= idx {
+								l++
+							}
+							code := idx - offs[l]
+							var val strings.Builder
+							for j := 0; j < l; j++ {
+								val.WriteString(h.toks[code%nt])
+								code /= nt
+							}
+							where := "top"
+							if h.part {
+								where = "part"
+							}
+							exec(s, c09Case{Input: build(h, val.String()), Mode: idx % 2, What: fmt.Sprintf("header-value/%s/%s", where, h.hdr)})
+						}
+						r.Transition(vf.Hash("hv", fmt.Sprint(hi)), fmt.Sprint(ci), vf.Hash("hv-done", fmt.Sprint(hi)))
+					})
+				}
+				r.Extra("header_value_inputs", nvals)
+			}
 			// (c) seeds with a reader failing at every offset
 			for si, seed := range seeds {
 				si, seed := si, seed
